@@ -25,6 +25,21 @@ E2 (bounded input-space enumeration), six finite spaces:
             and supplied guide trees (every binary topology, mirrored embeddings, non-binary trees).
   misuse    the documented refusals (one row for trace_from_strings, wrong number of FASTA names,
             unknown identity mode, 3-d index).
+
+Dimension audit families (small, complete over listed spaces):
+  long      listed two-row traces with 9..161 columns (CIGAR counts of 2 and 3 digits, str() blocks of 70, FASTA
+            lines of 80 columns): diagonal, clipped with gap runs >= 10, terminal runs >= 10, isolated single gaps.
+  flavour   every trace of lengths (2,2), (2,1,1) as int32 / int16 / Fortran / strided / read-only array; other
+            flavours of every argument (gap penalty, introns, indices, CIGAR operation arrays incl. CigarOp tuples,
+            position, FASTA names, index arrays); a 300-symbol alphabet (uint16 sequence codes, letters with the
+            codes 7 and 299) with every letter assignment.
+  edge      traces without columns; rows of an empty sequence (lengths (0,k), (k,0), three rows); one-row alignments.
+  many      align_multiple for 9, 10, 11 sequences (5 guide trees x 2 penalties x terminal flag) and the resulting
+            alignments through the conversion battery (FASTA names s0..s10).
+  reuse     second use of a FastaFile / of the same sequence and matrix objects, and use after a documented refusal,
+            compared with fresh objects.
+  msa_alpha align_multiple for matrix alphabets of 254..257 symbols and for uint8-coded sequences with a 300-symbol
+            matrix (the neutral gap symbol needs one more symbol code).
 """
 
 import io
@@ -75,6 +90,16 @@ ASSUMPTIONS = [
     "align_multiple failures are classified with the documented Feng-Doolittle formula evaluated over every "
     "optimal pairwise alignment (exact rationals); a failure outside the predicted class gets its own signature",
     "EValueEstimator (statistics.py, named in the anchors) is not part of the statement and is not exercised",
+    "str(alignment): every block holds one equally long line per row and line k of all blocks joined is gapped row k; "
+    "not checked for the 300-symbol alphabet (Alphabet.is_letter_alphabet() raises UnicodeEncodeError for non-ASCII "
+    "symbols - alphabet.py, outside this property)",
+    "Alignment(sequences, trace) keeps a reference to the trace argument and column slices are views (unchanged tree): "
+    "aliasing between an alignment and the array it was built from is counted as unspecified, not demanded either way",
+    "align_multiple with an alphabet whose gap code (= number of matrix symbols) does not fit the dtype of a sequence "
+    "code is unspecified (exception or a correct MSA); np.int64 / list gap penalties for align_multiple are not "
+    "generated (documented: int or tuple), they are for score()",
+    "a row that belongs to an empty sequence is a valid trace row (all gaps): codes, symbols, identity 'all', score with "
+    "terminal penalty and CIGAR are demanded, terminal-gap dependent results and FASTA read-back are unspecified",
 ]
 EXHAUSTIVE = True
 SHARD_TIMEOUT = {"quick": 600, "thorough": 2400}
@@ -131,6 +156,15 @@ def bounds(tier):
                 "8568 multisets x 4 listed orders; supplied distances (3 matrices): multisets n=2,3 (all palettes), 4, 5; "
                 "supplied trees: multisets n=2,3 (all palettes), n=4 (length <= 3), n=5 (length <= 2) x every binary topology "
                 "+ mirrored embedding + non-binary trees"),
+        "audit_families": {
+            "long_trace_columns": list(LONG_LENGTHS), "long_patterns": 4,
+            "trace_array_flavours": list(TRACE_FLAVOURS),
+            "flavour_lengths": "(2,2), (2,1,1)" if q else "(2,2), (3,2), (2,1,1), (2,2,1), all 5 palettes",
+            "large_alphabet": "300 symbols, lengths (2,2), (2,1)" + ("" if q else ", (1,2), (3,2), (1,1,1)"),
+            "edge_lengths": "(0,1) (0,2) (1,0) (2,0) (0,1,1) (1,0,2) (2,1,0) (1,) (2,) (3,); empty traces for (2,2) (1,2) (1,1,1) (2,1,1) (2,)",
+            "many_rows": [9, 10, 11], "reuse_cases": list(REUSE_CASES),
+            "alphabet_sizes": "matrix = sequences: 254, 255, 256, 257; matrix/sequences: 300/200, 300/256, 257/256",
+        },
         "msa_gap_penalties": MSA_GAPS,
         "msa_terminal_penalty": [True, False],
         "produced": "align_optimal, all ordered pairs of the 14 sequences x {global, semi-global, local} x gap {-3, (-5,-1)}, "
@@ -425,7 +459,8 @@ def part_views(b):
         okshape = True
         for block in r[1].split("\n\n"):
             lines = block.split("\n")
-            if len(lines) != b.n:
+            if len(lines) != b.n or len({len(x) for x in lines}) != 1:
+                # every block shows the same columns of all rows
                 okshape = False
                 break
             for k, line in enumerate(lines):
@@ -1441,6 +1476,16 @@ def long_traces(total):
     k = max(total - 21, 1)
     body += [(-1, k + i) for i in range(11)]
     out.append(("terminal_runs", 10 + k, k + 11, tuple(body)))
+    # isolated single-column gaps between runs of >= 2 pairs (a hyphen between letters)
+    body, r, q = [], 0, 0
+    for c in range(total):
+        if c % 7 == 3:
+            body.append((r, -1)); r += 1
+        elif c % 11 == 6:
+            body.append((-1, q)); q += 1
+        else:
+            body.append((r, q)); r += 1; q += 1
+    out.append(("single_gaps", r, q, tuple(body)))
     return out
 
 
@@ -2029,7 +2074,7 @@ def replay(case, ctx):
     e = env(case["pal"])
     if k == "conv":
         run_battery(ctx, e, case["seqs"], [tuple(c) for c in case["trace"]], ctx.tier,
-                    getitem=len(case["trace"]) <= 8, flavour=case.get("flavour", "int64"))
+                    getitem=len(case["trace"]) <= 8 and len(case["seqs"]) <= 3, flavour=case.get("flavour", "int64"))
     elif k == "argflav":
         check_arg_flavours(ctx, e, case["seqs"], [tuple(c) for c in case["trace"]])
     elif k == "reuse":
